@@ -26,6 +26,17 @@ CLAIMS = {
         "representational conversion.",
    technique="TLA+ calendar chain + exact fixed-point IAU-1982 polynomial in the spec; trace validation by TLC",
    ref="5/C16"),
+ "C19": dict(
+   text="TLC model-checks the reference calendars over their whole finite domains: the tabular-epact Easter definition "
+        "against the Meeus recipe for every year -4712..10000 (Sunday, 22 March..25 April), the arithmetic Hebrew calendar "
+        "(molad, four dehiyyot, year lengths, Pesach = Rosh Hashanah - 163) for years 1..3000 and the Islamic day chain AH "
+        "1..2500 against closed forms and published anchors. Every value the implementation returns (easter: all 14,713 "
+        "years; pesach: all 3,000; moslem2gregorian/gregorian2moslem: every day of the windows, thorough: all ~1.75 M days) "
+        "is validated by TLC against those definitions, the Moslem conversions as day chains.",
+   note="Trusted: TLC; Computus.tla (Knuth's tabular Easter, Dershowitz-Reingold Hebrew elapsed days, 30-year Islamic cycle), "
+        "anchored on published dates checked as invariants; Calendar.tla for civil dates.",
+   technique="TLA+ reference calendars model-checked exhaustively by TLC + trace validation of every returned date",
+   ref="5/C19"),
 }
 
 PENDING_REASON = "check not built yet in this round (specification module planned in DESIGN.md section 5); not claimed until its trace specification validates the unchanged tree"
